@@ -224,3 +224,163 @@ Example C02_example_quota :
   | _ => false
   end = true.
 Proof. vm_compute. reflexivity. Qed.
+
+(* ============================================================================================ *)
+(* "succeeds without error", closed: the per-baby body never fails either.                       *)
+(* Proofs: proofs/EpochTotalMut.v (every mutator and duplicate), EpochTotalBaby.v (the per-baby   *)
+(* body, the breeding loops, the epoch), EpochTotalQuota.v (the quota chain: prepareForReproduction *)
+(* hands out exactly PopSize offspring), EpochTotalFloat.v (binary64: rand.Float64() lies in      *)
+(* [0,1), the interspecies index and the activation roulette stay in range), EpochTotal.v.         *)
+(*                                                                                                *)
+(* Vocabulary added here (one line each, all definitions in proofs/EpochTotalDefs.v,              *)
+(* EpochTotalQuota.v, EpochTotal.v; C02_vocabulary below unfolds them):                            *)
+(*   tape_ok t               every cell of the tape is a genuine Int63() draw, 0 <= c < 2^63       *)
+(*   records_traits_ok e n   every recorded innovation names a trait index in [0, n)               *)
+(*   acts_ok o               NodeActivators is not empty; with two or more entries there are as   *)
+(*                           many probabilities and their float total is finite and >= 0           *)
+(*   exps_nonneg h           no organism of the heap carries a negative ExpectedOffspring          *)
+(*   quota_sum_ok o p        "Hsum", the one float-dependent hypothesis: the floor-and-carry total *)
+(*                           countOffspring accumulates over all species does not exceed PopSize   *)
+(*                           (in exact arithmetic it equals PopSize: C09_total_exact; the harness  *)
+(*                           monitors it on the implementation)                                    *)
+(*   quota_run_ok o steps p x s   quota_sum_ok in every epoch of the run                           *)
+(*   GInv C p e R NR         the registry invariant of C03 (props/C03.v)                           *)
+(* ============================================================================================ *)
+From NeatModel Require Import Mutate Dup Registry PopWF EpochTotalDefs EpochTotalQuota EpochTotal.
+
+Notation innovs := Genome.innovs.
+
+Theorem C02_vocabulary :
+  (forall t, tape_ok t <-> Forall (fun c => 0 <= c < 2 ^ 63) t) /\
+  (forall e n, records_traits_ok e n <-> forall i, In i (innovs e) -> 0 <= i_trait i < n) /\
+  (forall o, acts_ok o <->
+     match o_activators o with
+     | [] => False
+     | [_] => True
+     | acts => length acts = length (o_activator_probs o) /\
+               PrimFloat.leb 0 (fold_left PrimFloat.add (o_activator_probs o) 0%float) = true /\
+               PrimFloat.ltb (fold_left PrimFloat.add (o_activator_probs o) 0%float) infinity = true
+     end) /\
+  (forall h, exps_nonneg h <-> forall y, In y h -> PrimFloat.ltb (o_exp y) 0 = false) /\
+  (forall o p, quota_sum_ok o p <->
+     forall h1 sps1 p2 sps T,
+       adjust_all o (p_heap p) (p_species p) = Ok (h1, sps1) ->
+       purge_zero_offspring (p_with p sps1 (p_detached p) (p_orgs p) h1) = Ok p2 ->
+       count_all (p_heap p2) sps1 0%float 0 = Ok (sps, T) -> T <= o_pop_size o) /\
+  (forall o fs gen rest p x s, quota_run_ok o ((fs, gen) :: rest) p x s <->
+     forall h, set_fitness (p_heap p) (p_orgs p) fs = Ok h ->
+       quota_sum_ok o (p_with_heap p h) /\
+       forall p' x' s', next_epoch o gen (p_with_heap p h) x s = Ok ((p', x'), s') -> quota_run_ok o rest p' x' s') /\
+  (forall o p x s, quota_run_ok o [] p x s <-> True).
+Proof. repeat (split; [intros; reflexivity|]). intros; reflexivity. Qed.
+Print Assumptions C02_vocabulary.
+
+(* operator level: applied to a well-formed genome, in a state whose innovation records name valid
+   trait indices and whose tape holds genuine draws, every mutator returns Ok or runs out of tape:
+   no error return (no traits / no genes / wrong gene / genesis failed / no activators ...) and no
+   panic (index out of range, rand.Intn(0), nil node) is reachable; duplicate always succeeds.
+   mutateAllNonstructural additionally needs the genome to be consistent with the innovation
+   environment (env_ok, C01) because the proof threads well-formedness through the cascade. *)
+Theorem C02_mutators_succeed : forall o g s pw rt ga times id,
+  wf g -> records_traits_ok (s_env s) (zlen (traits g)) -> tape_ok (s_tape s) -> acts_ok o ->
+  safe (mutate_add_node o g s) /\ safe (mutate_add_link o g s) /\ safe (mutate_connect_sensors g s) /\
+  safe (mutate_link_weights pw rt ga g s) /\ safe (mutate_random_trait o g s) /\
+  safe (mutate_link_trait times g s) /\ safe (mutate_node_trait times g s) /\
+  safe (mutate_toggle_enable times g s) /\ safe (mutate_gene_reenable g s) /\
+  (env_ok (s_env s) g -> safe (mutate_all_nonstructural o g s)) /\
+  duplicate g id = Ok (with_id g id).
+Proof. exact mutators_succeed. Qed.
+Print Assumptions C02_mutators_succeed.
+
+Theorem C02_safe_meaning : forall (A : Type) (r : res A), safe r <-> (exists a, r = Ok a) \/ r = OutOfTape.
+Proof. intros A r. reflexivity. Qed.
+Print Assumptions C02_safe_meaning.
+
+(* ... and the structural mutators maintain the hypothesis about the records *)
+Theorem C02_mutators_keep_records : forall o g s g' b s',
+  wf g -> records_traits_ok (s_env s) (zlen (traits g)) -> tape_ok (s_tape s) -> acts_ok o ->
+  mutate_add_node o g s = Ok ((g', b), s') \/ mutate_add_link o g s = Ok ((g', b), s') \/
+  mutate_connect_sensors g s = Ok ((g', b), s') ->
+  records_traits_ok (s_env s') (zlen (traits g)).
+Proof. exact mutators_keep_records. Qed.
+Print Assumptions C02_mutators_keep_records.
+
+(* one epoch.  For every options record, generation number, executor state and tape of genuine
+   draws: if the population satisfies the book-keeping invariant (Part, Fresh, PopSize organisms)
+   and the registry invariant of C03 for some context C (all genomes well-formed, consistent with
+   the innovation environment, relatives of one another with the trait shape of C), the innovation
+   records name valid trait indices, no ExpectedOffspring is negative, and the options are sane
+   (0 < PopSize < 2^31, activators usable, survival threshold keeps the champion, CompatThreshold
+   not 0), then under Hsum NextEpoch returns a population or runs out of tape.  No error return
+   and no panic of the whole turnover is reachable: neither in the epoch's own book-keeping
+   (C02_no_error_partial) nor in duplicate, the mutators, the three crossovers and the parent
+   draws of the per-baby body. *)
+Theorem C02_epoch_succeeds : forall C o gen p x s R NR,
+  Part p -> Fresh p -> zlen (p_orgs p) = o_pop_size o -> 0 < o_pop_size o < 2 ^ 31 ->
+  GInv C p (s_env s) R NR -> records_traits_ok (s_env s) (zlen (c_tshape C)) ->
+  acts_ok o -> survivors_ok o -> PrimFloat.eqb (o_compat_thresh o) 0 = false ->
+  exps_nonneg (p_heap p) -> quota_sum_ok o p -> tape_ok (s_tape s) ->
+  (exists r, next_epoch o gen p x s = Ok r) \/ next_epoch o gen p x s = OutOfTape.
+Proof. exact epoch_succeeds. Qed.
+Print Assumptions C02_epoch_succeeds.
+
+(* NewPopulation from a well-formed start genome succeeds or runs out of tape *)
+Theorem C02_spawn_succeeds : forall o g s,
+  wf g -> 0 < o_pop_size o -> PrimFloat.eqb (o_compat_thresh o) 0 = false ->
+  (exists r, new_population o g s = Ok r) \/ new_population o g s = OutOfTape.
+Proof. exact spawn_succeeds. Qed.
+Print Assumptions C02_spawn_succeeds.
+
+(* whole runs: a population spawned from a well-formed start genome on a tape of genuine draws,
+   then any number of rounds of (assign arbitrary fitness values; turn the epoch over with an
+   arbitrary generation number): every NextEpoch, and the evaluator's write-back before it, succeeds
+   or the tape runs out.  All structural hypotheses of C02_epoch_succeeds are established by
+   NewPopulation and re-established by every epoch (Part/Fresh/size: C02_init, C02_step; GInv:
+   C03; records: the record is emptied at the end of an epoch; ExpectedOffspring: EpochTotalQuota);
+   what remains are the hypotheses on the options and Hsum for every epoch of the run. *)
+Theorem C02_history_succeeds : forall o g s0 steps x p s,
+  wf g -> innovs (s_env s0) = [] -> tape_ok (s_tape s0) ->
+  0 < o_pop_size o < 2 ^ 31 -> acts_ok o -> survivors_ok o -> PrimFloat.eqb (o_compat_thresh o) 0 = false ->
+  new_population o g s0 = Ok (p, s) -> quota_run_ok o steps p x s ->
+  (exists r, PopInv.run_epochs o steps p x s = Ok r) \/ PopInv.run_epochs o steps p x s = OutOfTape.
+Proof. exact history_succeeds. Qed.
+Print Assumptions C02_history_succeeds.
+
+(* non-vacuity: the hypotheses of C02_history_succeeds hold on the example run above (the start
+   genome is well-formed, the record empty, all 3000 tape cells genuine draws, the options sane,
+   the population is constructed, and Hsum holds in each of the three epochs) *)
+Example C02_example_wf_start : wf ex_genome.
+Proof.
+  constructor.
+  - discriminate.
+  - unfold genes_sorted, InsertSpec.asc. cbn. repeat constructor.
+  - unfold links_nodup. cbn. repeat constructor; cbn; intuition discriminate.
+  - unfold nodes_sorted, InsertSpec.asc. cbn. repeat constructor.
+  - intros y [<-|[<-|[<-|[]]]]; cbn; eexists; eexists; repeat split.
+  - split.
+    + intros y t [<-|[<-|[<-|[]]]] [= <-]; (split; [discriminate|]); cbn; eauto 8.
+    + intros n t [<-|[<-|[<-|[<-|[]]]]]; discriminate.
+  - split; [discriminate|]. exists 1. split; [reflexivity|reflexivity].
+  - exists (N 4 2 4 None). split; [cbn; auto|reflexivity].
+  - reflexivity.
+Qed.
+
+Example C02_example_succeeds_hypotheses :
+  wf ex_genome /\ innovs (s_env ex_s0) = [] /\ tape_ok (s_tape ex_s0) /\
+  0 < o_pop_size ex_opts < 2 ^ 31 /\ acts_ok ex_opts /\ PrimFloat.eqb (o_compat_thresh ex_opts) 0 = false /\
+  exists p s, new_population ex_opts ex_genome ex_s0 = Ok (p, s) /\
+              quota_run_ok ex_opts [(ex_fit, 1); (ex_fit, 2); (ex_fit, 3)] p ex_x0 s.
+Proof.
+  split; [exact C02_example_wf_start|]. split; [reflexivity|].
+  split; [apply tape_okb_ok; vm_compute; reflexivity|].
+  split; [vm_compute; split; reflexivity|].
+  split; [vm_compute; repeat split; reflexivity|].
+  split; [vm_compute; reflexivity|].
+  destruct (is_ok_pair (new_population ex_opts ex_genome ex_s0)) as (p & s & E); [vm_compute; reflexivity|].
+  exists p, s. split; [exact E|]. apply quota_run_okb_ok.
+  assert (H : match new_population ex_opts ex_genome ex_s0 with
+              | Ok (p, s) => quota_run_okb ex_opts [(ex_fit, 1); (ex_fit, 2); (ex_fit, 3)] p ex_x0 s
+              | _ => false
+              end = true) by (vm_compute; reflexivity).
+  rewrite E in H. exact H.
+Qed.
